@@ -373,12 +373,46 @@ package expr
 // (thin contract: which elements are returned is descriptor data and is not specified here)
 //@ func (e *FieldExpression) Evaluate(ctx, input) (res, err)
 //@   requires e != nil && validColl(input)
+//@   let m0 = input[0]
+//@   let fd = pbByName(pbFields(pbDesc(pbReflect(m0))), snakeS(e.FieldName))
+//@   let L = pbListOf(pbGet(pbReflect(m0), fd))
+//@   let plainIn = len(input) == 1 && isProtoMsg(m0) && !istype(m0, *anypb.Any) && !istype(m0, *bcrpb.ContainedResource)
+//@   let listNav = plainIn && e.Permissive && fd != nil && pbKind(fd) == 11 && pbIsList(fd)
 //@   ensures len(input) == 0 ==> err == nil && len(res) == 0
 //@   ensures !e.Permissive && (exists k int :: 0 <= k && k < len(input) && !isProtoMsg(input[k])) ==> err != nil
 //@   ensures err != nil ==> len(res) == 0
+// C02 (flattening, document order): navigating a repeated message field of one message yields
+// exactly the list's elements, all of them, in list order (stated for permissive mode, where
+// elements are returned as they are)
+//@   ensures listNav ==> err == nil && len(res) == pbLen(L)
+//@   ensures listNav ==> forall k int :: 0 <= k && k < len(res) ==> res[k] == pbIface(pbMsg(pbAt(L, k)))
+// an unset singular message field yields nothing; a set one yields exactly that element
+//@   ensures plainIn && e.Permissive && fd != nil && pbKind(fd) == 11 && !pbIsList(fd) && !pbValid(pbMsg(pbGet(pbReflect(m0), fd))) ==> err == nil && len(res) == 0
+//@   ensures plainIn && e.Permissive && fd != nil && pbKind(fd) == 11 && !pbIsList(fd) && pbValid(pbMsg(pbGet(pbReflect(m0), fd))) ==> err == nil && len(res) == 1 && res[0] == pbIface(pbMsg(pbGet(pbReflect(m0), fd)))
 //@   assigns nothing
 //@   loop 1 (i):
 //@     invariant own(output) && (i == 0 ==> len(output) == 0)
 //@     invariant !e.Permissive ==> (forall k int :: 0 <= k && k < i ==> isProtoMsg(input[k]))
+//@     invariant listNav && i == 1 ==> len(output) == pbLen(L) && (forall k int :: 0 <= k && k < len(output) ==> output[k] == pbIface(pbMsg(pbAt(L, k))))
+//@     invariant plainIn && e.Permissive && fd != nil && pbKind(fd) == 11 && !pbIsList(fd) && i == 1 && !pbValid(pbMsg(pbGet(pbReflect(m0), fd))) ==> len(output) == 0
+//@     invariant plainIn && e.Permissive && fd != nil && pbKind(fd) == 11 && !pbIsList(fd) && i == 1 && pbValid(pbMsg(pbGet(pbReflect(m0), fd))) ==> len(output) == 1 && output[0] == pbIface(pbMsg(pbGet(pbReflect(m0), fd)))
 //@   loop 2:
 //@     invariant own(output)
+//@     invariant 0 <= i
+//@     invariant listNav ==> i <= pbLen(L)
+//@     invariant listNav ==> len(output) == i && (forall k int :: 0 <= k && k < i ==> output[k] == pbIface(pbMsg(pbAt(L, k))))
+// the string form of a typed reference (Type/id[/_history/v]), a uri or a fragment; nil when
+// no reference is set. (Its one type assertion - the message of a reference oneof field is a
+// ReferenceId - is a fact of the generated schema and is reported as not covered.)
+//@ func (e *FieldExpression) unwrapReference(ref) (res)
+//@   requires ref != nil
+//@   let rv = pbReflect(box(ref))
+//@   let fld = pbWhichOneof(rv, pbOneofByName(pbOneofs(pbDesc(rv)), "reference"))
+//@   let refid = unbox(pbIface(pbMsg(pbGet(rv, fld))), *dtpb.ReferenceId)
+//@   let fname = string(pbName(fld))
+//@   let typed = refGet(ref) != nil && !istype(refGet(ref), *dtpb.Reference_Uri) && !istype(refGet(ref), *dtpb.Reference_Fragment) && fld != nil && strsuffix("_id", fname)
+// C02: a typed reference reads back as Type/id, or Type/id/_history/version when versioned
+//@   ensures typed && refid.History == nil ==> res != nil && res.Value == camelS(fname[:len(fname) - 3]) + "/" + refid.Value
+//@   ensures typed && refid.History != nil ==> res != nil && res.Value == camelS(fname[:len(fname) - 3]) + "/" + refid.Value + "/_history/" + refid.History.Value
+//@   ensures refGet(ref) == nil ==> res == nil
+//@   assigns nothing
